@@ -257,6 +257,47 @@ def split_tuple_assignments(tree):
     return count
 
 
+def unroll_join_accumulations(tree):
+    """Normalisation: ``s += ''.join(E for x in xs if c)`` (generator or list
+    comprehension, empty separator) is read as the loop it abbreviates:
+    ``for x in xs: if c: s += E``.  Rules about what a report loop emits, and
+    under which conditions, then see one form.  Returns the number unrolled."""
+    count = 0
+    for holder in ast.walk(tree):
+        for field in ('body', 'orelse', 'finalbody'):
+            block = getattr(holder, field, None)
+            if not (isinstance(block, list) and block and isinstance(block[0], ast.stmt)):
+                continue
+            new = []
+            for st in block:
+                v = st.value if isinstance(st, ast.AugAssign) and isinstance(st.op, ast.Add) else None
+                if isinstance(v, ast.Call) and isinstance(v.func, ast.Attribute) and v.func.attr == 'join' \
+                        and isinstance(v.func.value, ast.Constant) and v.func.value.value == '' \
+                        and len(v.args) == 1 and isinstance(v.args[0], (ast.GeneratorExp, ast.ListComp)) \
+                        and isinstance(st.target, ast.Name):
+                    comp = v.args[0]
+                    inner = [ast.copy_location(ast.AugAssign(target=st.target, op=ast.Add(), value=comp.elt), st)]
+                    for gen in reversed(comp.generators):
+                        if gen.is_async:
+                            inner = None
+                            break
+                        for cond in reversed(gen.ifs):
+                            inner = [ast.copy_location(ast.If(test=cond, body=inner, orelse=[]), st)]
+                        inner = [ast.copy_location(ast.For(target=gen.target, iter=gen.iter, body=inner,
+                                                           orelse=[]), st)]
+                    if inner is not None:
+                        for node in ast.walk(inner[0]):
+                            if isinstance(node, ast.Name) and isinstance(node.ctx, ast.Store):
+                                pass
+                        # comprehension targets are Store already
+                        new.extend(inner)
+                        count += 1
+                        continue
+                new.append(st)
+            setattr(holder, field, new)
+    return count
+
+
 def orient_comparisons(tree):
     """Normalisation: every single ordering comparison is read in its `<` form
     (``a > b`` as ``b < a``, ``a >= b`` as ``b <= a``).  Rules about thresholds
@@ -397,6 +438,7 @@ class Module:
         from .inline import inline_private_helpers
         self.inlined_helpers = inline_private_helpers(self.tree)
         self.split_tuples = split_tuple_assignments(self.tree)
+        self.unrolled_joins = unroll_join_accumulations(self.tree)
         self.propagated_constants = propagate_module_constants(self.tree)
         self.inlined_aliases = inline_attribute_aliases(self.tree)
         self.inlined_temporaries = inline_test_temporaries(self.tree)
